@@ -31,7 +31,7 @@ RULE = ("each run draws a pipeline (Sequence or Source form, 1-2 Cache elements,
         "lena.core.alter_sequence) executed on a simulated disk; every run's values are stamped "
         "with the run number; non-trivial = the history contains an interrupted run or a "
         "replay; thorough additionally sweeps every stop / raise position. distinct = distinct "
-        "abstracted event-kind sequences"
+        "abstracted event-kind sequences."
         " Since the seeded rounds also: single-block Split form, re-used pipeline objects (also"
         " two objects alternating on the same files), consumers that keep the suspended generator"
         " and later close it or come back for the rest of the flow, a source that re-uses one"
